@@ -257,11 +257,24 @@ PIPELINES["C01"] = heap_pipeline("C01", quick=dict(depth=1, sim=(25, 4), rand=25
 PIPELINES["C04"] = heap_pipeline("C04", quick=dict(depth=1, sim=(6, 3), rand=250),
                                  thorough=dict(depth=2, sim=(100, 5), rand=4000), mc=["MC_Sites"])
 
-for _p, _q, _t in (("C05", 200, 3000), ("C10", 200, 3000), ("C12", 250, 4000), ("C13", 250, 4000), ("C14", 200, 3000),
-                   ("C15", 250, 4000), ("C19", 250, 4000)):
-    def _mk(p, q, t):
-        def run(work, v, tier, seed):
-            vf.build_driver(work)
-            heap_random_validate(work, v, p, q if tier == "quick" else t, seed, tier)
-        return run
-    PIPELINES.setdefault(_p, _mk(_p, _q, _t))
+PIPELINES["C05"] = heap_pipeline("C05", quick=dict(depth=1, rand=200), thorough=dict(depth=1, scope="full", rand=4000))
+PIPELINES["C12"] = heap_pipeline("C12", quick=dict(depth=1, rand=250), thorough=dict(depth=1, scope="full", rand=4000))
+PIPELINES["C13"] = heap_pipeline("C13", quick=dict(depth=1, rand=250), thorough=dict(depth=2, scope="full", rand=4000))
+PIPELINES["C14"] = heap_pipeline("C14", quick=dict(depth=1, rand=200), thorough=dict(depth=1, scope="full", rand=3000))
+PIPELINES["C15"] = heap_pipeline("C15", quick=dict(depth=1, rand=250), thorough=dict(depth=1, scope="full", rand=4000))
+PIPELINES["C19"] = heap_pipeline("C19", quick=dict(depth=2, rand=250), thorough=dict(depth=2, scope="full", rand=4000))
+
+
+def _c10(work, v, tier, seed):
+    heap_pipeline("C10", quick=dict(depth=1, rand=200), thorough=dict(depth=1, rand=3000))(work, v, tier, seed)
+    # support (every admissible elementary outcome is observed) and seed replay on small instances
+    trace = vf.drive(work, "heap", seed=seed, mode="C10sup", tier=tier)
+    res = vf.tlc_trace(work, "Trace_Heap", trace)
+    heap_account(v, trace, res)
+    judged = [s for s in res.get("support", []) if s["n"] >= 100]
+    if not judged:
+        raise vf.ToolingError("support workload judged no key")
+    v.notes.append("support: %d (operation, arguments, instance) keys with >= 100 draws each, all elementary outcomes required" % len(judged))
+
+
+PIPELINES["C10"] = _c10
